@@ -15,6 +15,11 @@ class Desync(Exception):
     pass
 
 
+class Spin(BaseException):
+    """the caller keeps reading a stream that is at end-of-file (a real run would never return).  BaseException: must not be swallowed
+    by the `except Exception` handlers of the code under test."""
+
+
 def read_sexprs(text):
     """-> (list of complete top-level s-expression strings, rest)"""
     out = []
@@ -262,6 +267,11 @@ class FakeOut(object):
 
     def readline(self):
         p = self.proc
+        if not p.out and p.dead:
+            p.eof_reads += 1
+            if p.eof_reads > 200:
+                raise Spin("more than 200 reads at end-of-file: the reader does not notice that the solver process is gone")
+            return ""
         if not p.out:
             raise Desync("read with no reply pending (a real solver process would block forever)")
         k = p.out.find("\n")
@@ -274,6 +284,11 @@ class FakeOut(object):
 
     def read(self, n=1):
         p = self.proc
+        if not p.out and p.dead:
+            p.eof_reads += 1
+            if p.eof_reads > 200:
+                raise Spin("more than 200 reads at end-of-file: the reader does not notice that the solver process is gone")
+            return ""
         if not p.out:
             raise Desync("read with no reply pending (a real solver process would block forever)")
         ch, p.out = p.out[:n], p.out[n:]
@@ -297,9 +312,22 @@ class FakeProcess(object):
         self.stdin = FakeIn(self)
         self.stdout = FakeOut(self)
         self.stderr = FakeOut(self)
+        self.dead = False
+        self.eof_reads = 0
+        self.die_after = FakeProcess.DIE_AFTER        # number of commands answered before the process dies (None: never)
+        self.broken_pipe = FakeProcess.BROKEN_PIPE    # after death: writes raise BrokenPipeError (True) / are swallowed (False)
         FakeProcess.instances.append(self)
 
+    DIE_AFTER = None
+    BROKEN_PIPE = False
+
     def on_command(self, cmd):
+        if self.die_after is not None and len(self.commands) >= self.die_after:
+            self.dead = True
+        if self.dead:
+            if self.broken_pipe:
+                raise BrokenPipeError("solver process is gone")
+            return
         if self.out.strip() != "":
             # the reply to an earlier command has not been (fully) consumed when the next command arrives
             self.violations.append("command %r sent while %r of the previous reply is unread" % (cmd[:60], self.out))
